@@ -4,6 +4,7 @@ Tie: the descriptors (Gen/NasDesc.v) are regenerated from the Go source by `harn
 theorems of Properties/C08.v are re-checked against them; the interpreter semantics (Model/NasCodec.v) is compared
 with the real PlainNasEncode/PlainNasDecode on PRNG-drawn generic messages and byte strings."""
 import json
+import re
 from .. import common as C
 from .. import gen
 from ..prop import Check, Stream
@@ -64,9 +65,14 @@ OVERSIZE = 60000    # a misparsed TLV-E length makes the library allocate up to 
                     # python-side oracles apply to it
 
 
+def too_deep(t):
+    """a list literal with tens of thousands of elements overflows coqc's parser stack; the total size does not matter"""
+    return any(seg.count(";") > 30000 for seg in re.findall(r"\[([^\[\]]*)\]", t))
+
+
 def rt_case(c, o):
     t = "(%s, %s, %s)" % (coq_nas(c["msg"]), coq_obytes(o, "enc") or "OP", coq_odec(o))
-    return t if len(t) <= OVERSIZE else '(mk_nas ""%string [] ""%string [], OE, ONone)'
+    return t if not too_deep(t) else '(mk_nas ""%string [] ""%string [], OE, ONone)'
 
 
 def oversize(o):
